@@ -208,6 +208,11 @@ fn run_op(store: &AnnotationStore, op: ROp) -> String {
     }
 }
 
+thread_local! {
+    /// build the next stand-off store with Config::with_use_include(false): members are written inline although they have files
+    static USE_INCLUDE_OFF: std::cell::Cell<bool> = std::cell::Cell::new(false);
+}
+
 fn build_store(dir: &str, standoff: bool, changed: bool) -> AnnotationStore {
     build_store_kind(dir, standoff, changed, false)
 }
@@ -242,7 +247,7 @@ fn build_store_full(dir: &str, standoff: bool, changed: bool, json_resources: bo
     }
     let path = format!("{}/c20.store.stam.json", dir);
     store.to_file(&path).expect("write");
-    let mut loaded = AnnotationStore::from_file(&path, Config::default().with_debug(false).with_workdir(dir.to_string())).expect("reload");
+    let mut loaded = AnnotationStore::from_file(&path, Config::default().with_debug(false).with_workdir(dir.to_string()).with_use_include(!USE_INCLUDE_OFF.with(|f| f.get()))).expect("reload");
     // loading marks the members as changed: a first serialisation brings files and flags in sync; readers come afterwards
     if sync {
         let _ = loaded.to_json_string(loaded.config());
@@ -470,7 +475,7 @@ fn judge(rep: &mut Report, storekind: &str, ops: &[ROp], base: &[String], got: &
 }
 
 pub fn run(p: &Params, rep: &mut Report) {
-    rep.rule = "stores with inline members and with stand-off (@include) resources and datasets (written to the work directory and reloaded; unchanged, and changed by one more annotation); reader operations: store.to_json_string, ToJson::to_json_string on a resource and on a dataset, ToJson::to_json_file on a resource (scratch file), ToCsv::to_csv_string on a dataset and on the store, TextResource::to_txt_file, TextResource::to_json_string, AnnotationDataSet::to_json_string / to_json_value, a SELECT query, QueryResultItem::to_json_string, related_text, the .parallel() adaptors. (i) controlled schedules: each reader parks at every yield point (serialisation-mode reads and writes, changed-flag reads and writes); for every pair of operations interleavings are enumerated depth-first up to a budget and then sampled with a seeded generator; triples are sampled; (ii) stress: 4-12 free-running threads with the hook injecting yield_now and microsecond sleeps. Every result is compared with the result of the same call running alone before and after, and the hooked dump must be unchanged; (iii) changed stand-off stores: the files a reader leaves behind must not depend on the reader that ran before it. distinct_nontrivial = distinct (store kind, operation tuple, interleaving trace) executed".into();
+    rep.rule = "stores with inline members and with stand-off (@include) resources and datasets (written to the work directory and reloaded; unchanged, changed by one more annotation, with a STAM JSON resource, and loaded with use_include switched off); reader operations: store.to_json_string, ToJson::to_json_string on a resource and on a dataset, ToJson::to_json_file on a resource (scratch file), ToCsv::to_csv_string on a dataset and on the store, TextResource::to_txt_file, TextResource::to_json_string, AnnotationDataSet::to_json_string / to_json_value, a SELECT query, QueryResultItem::to_json_string, related_text, the .parallel() adaptors. (i) controlled schedules: each reader parks at every yield point (serialisation-mode reads and writes, changed-flag reads and writes); for every pair of operations interleavings are enumerated depth-first up to a budget and then sampled with a seeded generator; triples are sampled; (ii) stress: 4-12 free-running threads with the hook injecting yield_now and microsecond sleeps. Every result is compared with the result of the same call running alone before and after, and the hooked dump must be unchanged; (iii) changed stand-off stores: the files a reader leaves behind must not depend on the reader that ran before it. distinct_nontrivial = distinct (store kind, operation tuple, interleaving trace) executed".into();
     rep.assumptions = vec!["yield points sit before every read or write of Config.serialize_mode and the changed flags (feature verif); other code between them is treated as atomic by the controlled schedules and exercised by the stress runs".into()];
     if let Some(v) = p.variant.as_deref() {
         if v == "miri" || v == "tsan" {
@@ -481,7 +486,7 @@ pub fn run(p: &Params, rep: &mut Report) {
     let budget_pairs: usize = if p.thorough { 600 } else { 60 };
     let sampled: usize = if p.thorough { 300 } else { 30 };
     let stress_rounds: usize = if p.thorough { 2000 } else { 150 };
-    let storekinds = [("inline", false, false), ("standoff-unchanged", true, false), ("standoff-changed", true, true), ("standoff-json-resource", true, false)];
+    let storekinds = [("inline", false, false), ("standoff-unchanged", true, false), ("standoff-changed", true, true), ("standoff-json-resource", true, false), ("standoff-use-include-off", true, false)];
     // the work is split over shards by (store kind, operation pair)
     let mut jobs: Vec<(usize, Vec<ROp>)> = Vec::new();
     for sk in 0..storekinds.len() {
@@ -513,7 +518,9 @@ pub fn run(p: &Params, rep: &mut Report) {
                 }
             }
         }
+        USE_INCLUDE_OFF.with(|f| f.set(kind == "standoff-use-include-off"));
         let store = build_store_kind(&dir, standoff, changed, kind == "standoff-json-resource");
+        USE_INCLUDE_OFF.with(|f| f.set(false));
         let base: Vec<String> = ops.iter().map(|o| run_op(&store, *o)).collect();
         let dump_before = dump_of(&store);
         let files_before = dir_state(&dir);
